@@ -110,6 +110,9 @@ pub trait Backend: 'static + Send + Sync {
     /// the configuration's own validity predicates (ark_serialize::Valid::check / batch_check on the
     /// element and on its affine form) accept this element; configurations without one say true
     fn self_check(a: &Self::E) -> Result<(), String>;
+    /// the element's other public value form (ark: AffinePoint) survives its own serialisation round trip under
+    /// its own equality; configurations without such a form say Ok
+    fn other_form_roundtrip(a: &Self::E) -> Result<(), String>;
     /// the `i`-th operator / method / trait form of the configuration that computes `op`
     /// (C04's catalogue of forms); a plain fallback when the configuration has none
     fn op_form(op: crate::props::c04::Op, i: u8, a: &Self::E, b: &Self::E, c: &Self::E) -> Self::E;
@@ -185,6 +188,23 @@ impl Backend for Ark {
         use crate::props::c04::{apply_ark, forms_of};
         let forms: Vec<_> = forms_of(crate::props::common::Bk::Ark).into_iter().filter(|f| f.op() == op).collect();
         apply_ark(forms[i as usize % forms.len()], *a, *b, *c)
+    }
+    fn other_form_roundtrip(a: &Self::E) -> Result<(), String> {
+        use ark_ec::CurveGroup;
+        use ark_serialize::{CanonicalDeserialize, CanonicalSerialize};
+        type AA = <ark::Element as CurveGroup>::Affine;
+        let aff: AA = a.into_affine();
+        let mut bytes = Vec::new();
+        aff.serialize_compressed(&mut bytes).map_err(|e| format!("AffinePoint::serialize_compressed: {e:?}"))?;
+        let back = AA::deserialize_compressed(&bytes[..]).map_err(|e| format!("AffinePoint::deserialize_compressed of its own serialisation: {e:?}"))?;
+        if !(back == aff) || !(aff == back) || back != aff {
+            return Err("AffinePoint: deserialize(serialize(A)) != A under AffinePoint's own equality".into());
+        }
+        let e2: ark::Element = back.into();
+        if e2 != *a {
+            return Err("AffinePoint: deserialize(serialize(A)) converts to a different element".into());
+        }
+        Ok(())
     }
     fn self_check(a: &Self::E) -> Result<(), String> {
         use ark_ec::CurveGroup;
@@ -298,6 +318,9 @@ impl Backend for Min {
             };
         }
         apply_min(forms[i as usize % forms.len()], *a, *b, *c)
+    }
+    fn other_form_roundtrip(_a: &Self::E) -> Result<(), String> {
+        Ok(())
     }
     fn self_check(_a: &Self::E) -> Result<(), String> {
         Ok(())
